@@ -564,6 +564,27 @@ func (fx *FuncCtx) specCall(env *specEnv, x *ast.CallExpr) sval {
 		}
 		_, okT := fx.mapLookup(env.cur, mv, arg(1).v)
 		return sval{okT, nil}
+	case "hasType":
+		// hasType(x, T): the dynamic type of interface value x is T (T: *Dense, VecDense, pkg.Type ...)
+		a := arg(0)
+		iv, ok := a.v.(IfaceV)
+		if !ok {
+			fx.unsupportedf("spec: hasType on non-interface")
+		}
+		t := fx.specType(env, x.Args[1])
+		fx.declFun("typeOf", []Sort{SIfc}, SInt)
+		fx.declare("(declare-const nilIface Iface)")
+		return sval{And(Not(Eq(iv.T, Term{"nilIface", SIfc})), Eq(app(SInt, "typeOf", iv.T), IntLit(fx.eng.typeID(t)))), nil}
+	case "unbox":
+		// unbox(x, T): the value of dynamic type T stored in interface x
+		a := arg(0)
+		iv, ok := a.v.(IfaceV)
+		if !ok {
+			fx.unsupportedf("spec: unbox on non-interface")
+		}
+		t := fx.specType(env, x.Args[1])
+		_, v := fx.assertTo(env.cur, iv, t)
+		return sval{v, t}
 	case "typeOf":
 		a := arg(0)
 		if iv, ok := a.v.(IfaceV); ok {
@@ -648,4 +669,35 @@ func (fx *FuncCtx) applySpec(env *specEnv, sp *SpecFunc, x *ast.CallExpr) sval {
 	c.isCallee = true
 	c.names = map[string]sval{}
 	return fx.specEval(c, sp.Body)
+}
+
+// specType resolves a type expression of a contract (*T, T, pkg.T).
+func (fx *FuncCtx) specType(env *specEnv, e ast.Expr) types.Type {
+	switch x := e.(type) {
+	case *ast.StarExpr:
+		return types.NewPointer(fx.specType(env, x.X))
+	case *ast.ParenExpr:
+		return fx.specType(env, x.X)
+	case *ast.Ident:
+		pkg := env.pkg
+		if pkg == nil {
+			pkg = fx.pkg.Types
+		}
+		if obj, ok := pkg.Scope().Lookup(x.Name).(*types.TypeName); ok {
+			return obj.Type()
+		}
+		if obj, ok := types.Universe.Lookup(x.Name).(*types.TypeName); ok {
+			return obj.Type()
+		}
+	case *ast.SelectorExpr:
+		if id, ok := x.X.(*ast.Ident); ok {
+			if p := fx.eng.importedPkg(fx, env, id.Name); p != nil {
+				if obj, ok := p.Scope().Lookup(x.Sel.Name).(*types.TypeName); ok {
+					return obj.Type()
+				}
+			}
+		}
+	}
+	fx.unsupportedf("spec: cannot resolve type %s", fx.specSrc(e))
+	return nil
 }
